@@ -56,23 +56,30 @@ def obs_event(e):
     return (e.timestamp, e.data, tuple(e.values), e.tid, e.debugid, e.eventid, e.func_qualifier)
 
 
-def parse_kd(blob, tp, pn):
+def stream_at(blob, offset):
+    """a stream whose first `offset` bytes are somebody else's (already consumed): the dump begins at the current position."""
+    st = io.BytesIO(bytes((i * 11 + 3) % 255 + 1 for i in range(offset)) + blob)
+    st.seek(offset)
+    return st
+
+
+def parse_kd(blob, tp, pn, offset=0):
     p = KdBufParser(tp, pn)
     out = []
     err = None
     try:
-        for e in p.parse(io.BytesIO(blob)):
+        for e in p.parse(stream_at(blob, offset)):
             out.append(obs_event(e))
     except Exception as ex:
         err = type(ex).__name__
     return out, err, p
 
 
-def parse_facade(blob, parser):
+def parse_facade(blob, parser, offset=0):
     out = []
     err = None
     try:
-        for e in parser.kevents(io.BytesIO(blob)):
+        for e in parser.kevents(stream_at(blob, offset)):
             out.append(obs_event(e))
     except Exception as ex:
         err = type(ex).__name__
@@ -106,7 +113,7 @@ def classify(kinds, recs, got, err, exp):
     return 'v2-event-content'
 
 
-def judge_dump(tm_idx, pad, kinds, entry):
+def judge_dump(tm_idx, pad, kinds, entry, offset=0):
     """returns list of (sig, detail)"""
     blob, threads, recs = build(tm_idx, pad, kinds)
     exp = [ref_decode(r) for r in recs]
@@ -114,14 +121,14 @@ def judge_dump(tm_idx, pad, kinds, entry):
     bad = []
     if entry == 'kd':
         tp, pn = {99: 99}, {99: 'stale'}
-        got, err, p = parse_kd(blob, tp, pn)
+        got, err, p = parse_kd(blob, tp, pn, offset)
         same_obj = p.threads_pids is tp and p.pids_names is pn
     else:
         f = PyKdebugParser()
         tp, pn = f.threads_pids, f.pids_names
         tp[99] = 99
         pn[99] = 'stale'
-        got, err = parse_facade(blob, f)
+        got, err = parse_facade(blob, f, offset)
         same_obj = f.threads_pids is tp and f.pids_names is pn
     if got != exp or err is not None:
         bad.append((classify(kinds, recs, got, err, exp), {'got_n': len(got), 'exp_n': len(exp), 'err': err}))
@@ -375,6 +382,16 @@ class C02(Check):
                             acc.violation('v2-long-dump-events', {'kind': 'long', 'n': n, 'pad': pad, 'entry': entry},
                                           {'got_n': len(got), 'exp_n': n, 'err': err,
                                            'first_diff': next((i for i, (x, y) in enumerate(zip(got, exp)) if x != y), None)})
+            # the dump does not begin at stream position 0 (every pad kind, with and without thread map)
+            for off in (1, 7, 8, 63, 64, 0x100, 0x120, 0x123, 4000, 4091, 4096, 4100):
+                for tm in ((), (0,), (0, 1)):
+                    for pad in PADS_Q:
+                        for kinds in (('cap',), ('ff', 'cap')):
+                            for entry in ('kd', 'facade'):
+                                bad = judge_dump(tm, pad, kinds, entry, offset=off)
+                                acc.case(nontrivial=True, transitions=1, outcome=h64(('offset', off, pad)))
+                                for sig, detail in bad:
+                                    acc.violation(sig + ':dump-not-at-stream-start', {'kind': 'long', 'offset': off, 'tm': list(tm), 'pad': pad, 'records': list(kinds), 'entry': entry}, detail)
         elif desc[0] == 'concurrent':
             from mc.space import interleavings
             for a, b in itertools.product(C_DUMPS, repeat=2):
